@@ -114,13 +114,28 @@ Print Assumptions C19_string_lookup_is_reference.
    implementation returned is the one the property demands for the queried path (address lists are
    compared as lists: nil and empty are the same) in the configuration AS IT STOOD WHEN THE CALL WAS
    MADE: the first calls in the installed tree, the calls of every later phase in the tree reached by
-   the changes made so far on the same viper instance ([later_ok], [apply_changes]). *)
+   the changes made so far on the same viper instance ([later_ok], [apply_changes]); the calls made by
+   several goroutines at the same time on the installed tree ([c_parallel]) are held to the same
+   standard as the sequential ones. *)
 Theorem C19_P_b_sound :
   forall cs : case, P_b cs = true ->
     Forall (query_ok (c_cfg cs) (c_deflevel cs)) (c_queries cs) /\
+    Forall (Forall (query_ok (c_cfg cs) (c_deflevel cs))) (c_parallel cs) /\
     later_ok (c_cfg cs, c_deflevel cs) (c_later cs).
 Proof. exact P_b_sound. Qed.
 Print Assumptions C19_P_b_sound.
+
+(* Concurrent callers.  The configuration standing still, the value used for a path does not depend on
+   who else is resolving a path at the same moment: the relation [resolves] determines the value from
+   the configuration and the path alone, so if P_b holds of a case, any two of its calls on the
+   installed tree - sequential, or made by different goroutines at the same time, any number of times -
+   with the same arguments returned the same value, and it is the longest-prefix one
+   (C19_P_b_sound).  [c_parallel] lists every DISTINCT answer each goroutine saw. *)
+Theorem C19_concurrent_callers_agree :
+  forall cs : case, P_b cs = true ->
+    forall q1 q2, In q1 (calls_on_installed cs) -> In q2 (calls_on_installed cs) -> same_answer q1 q2.
+Proof. exact P_b_callers_agree. Qed.
+Print Assumptions C19_concurrent_callers_agree.
 
 (* ---- a configuration that changes between calls ---- *)
 (* The functions keep nothing between calls; the property is about the tree as it stands. *)
@@ -346,4 +361,28 @@ Example C19_history_example :
 Proof.
   cbn zeta. repeat (apply conj); try reflexivity; try discriminate.
   repeat constructor.
+Qed.
+
+(* a concurrent round: two goroutines ask the same deep path while a third asks its parent.  With
+   every goroutine seeing the longest-prefix value P_b holds and the callers agree; if one goroutine
+   also saw the top-level value once (a garbled key missed: what a key built in a shared buffer
+   does), P_b fails. *)
+Example C19_concurrent_example :
+  let c := [ (["beacon-node-addresses"], RList ["top:5052"]);
+             (["m1"; "beacon-node-addresses"], RList ["shallow:5052"]);
+             (["m1"; "first"; "second"; "beacon-node-addresses"], RList ["full:5052"]) ] in
+  let deep := QAddr "m1.first.second.third" (Some ["full:5052"]) in
+  let mid := QAddr "m1.first" (Some ["shallow:5052"]) in
+  let good := {| c_id := 0; c_cfg := c; c_deflevel := 0%Z; c_queries := [deep];
+                 c_parallel := [[deep; mid]; [deep]; [mid]; [deep; mid]]; c_later := [] |} in
+  let bad := {| c_id := 1; c_cfg := c; c_deflevel := 0%Z; c_queries := [deep];
+                c_parallel := [[deep; mid; QAddr "m1.first.second.third" (Some ["top:5052"])]; [deep]; [mid];
+                               [deep; mid]];
+                c_later := [] |} in
+  P_b good = true /\ agree good = true /\ len (calls_on_installed good) = 7%nat /\
+  P_b bad = false /\ agree bad = false /\
+  ~ same_answer deep (QAddr "m1.first.second.third" (Some ["top:5052"])).
+Proof.
+  cbn zeta. repeat split; try (vm_compute; reflexivity).
+  cbn [same_answer slice_items]. intros H. specialize (H eq_refl). discriminate H.
 Qed.
